@@ -20,7 +20,8 @@ pub struct DOut {
 
 // ------------------------------------------------------------------- C04 ---
 
-const IDS: [&str; 12] = ["0", "1", "2", "10", "a", "b", "A", "a-", "-", "1a", "a1", "18446744073709551615"];
+// incl. neighbours above 2^53 (not representable as doubles) and the two largest u64 values
+const IDS: [&str; 16] = ["0", "1", "2", "10", "a", "b", "A", "a-", "-", "1a", "a1", "18446744073709551615", "18446744073709551614", "9007199254740992", "9007199254740993", "9"];
 
 pub fn c04_universe(tier: &str) -> Vec<Version> {
     let mut tags: Vec<String> = vec![String::new()];
@@ -296,11 +297,18 @@ fn c04_fixture_check(tier: &str, u: &[Version]) -> Result<Value, String> {
     }
     let rows = fx["rows"].as_array().ok_or("rows")?;
     let mut dis = 0u64;
+    let mut f64_cells = 0u64;
     let mut first = String::new();
     for (i, row) in rows.iter().enumerate() {
         let row = row.as_str().unwrap_or("").as_bytes();
         for j in 0..u.len() {
             let want = ord_char(rcmp(&u[i], &u[j])) as u8;
+            // node shortcut (4): node-semver compares numeric identifiers as IEEE doubles, so two
+            // different numerics above 2^53 within one ulp compare equal there; SemVer says "by value"
+            if row[j] != want && ord_char(rcmp_f64(&u[i], &u[j])) as u8 == row[j] {
+                f64_cells += 1;
+                continue;
+            }
             if row[j] != want {
                 dis += 1;
                 if first.is_empty() {
@@ -312,7 +320,46 @@ fn c04_fixture_check(tier: &str, u: &[Version]) -> Result<Value, String> {
     if dis > 0 {
         return Err(format!("{} disagreements with node-semver compare(); first: {}", dis, first));
     }
-    Ok(json!({"against": "frozen node-semver 7.6.2 compare() table", "pairs": u.len() * u.len(), "disagreements": 0}))
+    Ok(json!({"against": "frozen node-semver 7.6.2 compare() table", "pairs": u.len() * u.len(), "disagreements": 0, "cells_explained_by_node_comparing_numeric_identifiers_as_doubles": f64_cells}))
+}
+
+/// What node-semver's comparePre does: identifiers left to right; two numeric identifiers are
+/// compared as IEEE doubles and, if the doubles are equal although the texts differ, the whole
+/// comparison returns 0 at that point.
+fn rcmp_f64(a: &Version, b: &Version) -> Ordering {
+    use nodejs_semver::Identifier::*;
+    for (x, y) in [(a.major, b.major), (a.minor, b.minor), (a.patch, b.patch)] {
+        if x != y {
+            return if x < y { Ordering::Less } else { Ordering::Greater };
+        }
+    }
+    match (a.pre_release.is_empty(), b.pre_release.is_empty()) {
+        (true, true) => return Ordering::Equal,
+        (true, false) => return Ordering::Greater,
+        (false, true) => return Ordering::Less,
+        _ => {}
+    }
+    let mut i = 0;
+    loop {
+        match (a.pre_release.get(i), b.pre_release.get(i)) {
+            (None, None) => return Ordering::Equal,
+            (Some(_), None) => return Ordering::Greater,
+            (None, Some(_)) => return Ordering::Less,
+            (Some(Numeric(p)), Some(Numeric(q))) => {
+                if p != q {
+                    let (fp, fq) = (*p as f64, *q as f64);
+                    return if fp < fq { Ordering::Less } else if fp > fq { Ordering::Greater } else { Ordering::Equal };
+                }
+            }
+            (Some(x), Some(y)) => {
+                let o = id_cmp(x, y);
+                if o != Ordering::Equal {
+                    return o;
+                }
+            }
+        }
+        i += 1;
+    }
 }
 
 // ------------------------------------------------------------------- C16 ---
